@@ -22,6 +22,37 @@ ENUM_CHUNK = 6
 
 
 @st.composite
+def archipelago_case(draw, tier):
+    """many vertex-disjoint cliques (score zero at once) plus one or two clusters in which a core clique has
+    smaller cliques attached along an edge (non-zero scores): stresses the index bookkeeping of the score-zero pass.
+    Vertex labels are a random permutation, so the sorted position of the survivors varies."""
+    blocks = []  # list of vertex-count-local edge sets, built on fresh vertices
+    n = 0
+    edges = []
+    for _ in range(draw(st.integers(3, 12))):
+        k = draw(st.sampled_from([3, 3, 3, 4, 4, 5]))
+        vs = list(range(n, n + k))
+        n += k
+        edges += list(combinations(vs, 2))
+    for _ in range(draw(st.integers(1, 2))):
+        k = draw(st.sampled_from([3, 4, 4, 5]))
+        core = list(range(n, n + k))
+        n += k
+        edges += list(combinations(core, 2))
+        core_edges = list(combinations(core, 2))
+        for ce in draw(st.lists(st.sampled_from(core_edges), min_size=1, max_size=4, unique=True)):
+            extra = draw(st.integers(1, 2))
+            vs = list(ce) + list(range(n, n + extra))
+            n += extra
+            edges += [p for p in combinations(vs, 2) if p != tuple(ce)]
+    labels = list(draw(st.permutations(list(range(n)))))
+    order = draw(st.permutations(edges))
+    m0 = draw(st.sampled_from([3, 4, 4, 5, 6]))
+    r = {"mode": "seed", "seed": draw(st.integers(0, 2 ** 31))}
+    return {"edges": [[labels[a], labels[b]] for a, b in order], "m0": m0, "rng": r}
+
+
+@st.composite
 def graph_case(draw, tier):
     n = draw(st.integers(2, 9 if tier == "quick" else 12))
     edges = set()
@@ -49,12 +80,16 @@ def graph_case(draw, tier):
     r = draw(st.one_of(st.fixed_dictionaries({"mode": st.just("seed"), "seed": st.integers(0, 2 ** 31)}),
                        st.fixed_dictionaries({"mode": st.just("script"), "ints": st.lists(st.integers(0, 30), max_size=30),
                                               "tail": st.integers(0, 99)})))
-    return {"edges": [[labels[b], labels[a]] if f else [labels[a], labels[b]] for (a, b), f in zip(order, flip)],
-            "m0": m0, "rng": r}
+    c = {"edges": [[labels[b], labels[a]] if f else [labels[a], labels[b]] for (a, b), f in zip(order, flip)],
+         "m0": m0, "rng": r}
+    if draw(st.integers(0, 2)) == 2:
+        c["prelude"] = [[draw(st.sampled_from(["lmc", "cover"])), draw(st.integers(2, 7))]
+                        for _ in range(draw(st.integers(1, 2)))]
+    return c
 
 
 def strategy(tier):
-    return graph_case(tier)
+    return st.one_of(graph_case(tier), graph_case(tier), archipelago_case(tier))
 
 
 def enumerated(tier, seed):
@@ -74,11 +109,21 @@ def enumerated(tier, seed):
     return out
 
 
-def run_once(edges, m0):
+def run_once(edges, m0, prelude=()):
     from gcmpy import EECC
     net = EECC()
     for a, b in edges:
         net.add_edge((a, b))
+    # earlier use of the same object under another bound: list the limited cliques, or compute a whole cover
+    # (which empties the working graph) and add the edges again
+    for op, a in prelude:
+        net.set_max_clique_size(a)
+        if op == "lmc":
+            net.limited_maximal_cliques()
+        else:
+            net.get_EECC()
+            for x, y in edges:
+                net.add_edge((x, y))
     net.set_max_clique_size(m0)
     cover = net.get_EECC()
     return net, cover
@@ -132,7 +177,7 @@ def check(case):
         holder = {}
 
         def outcome():
-            net, cover = call("get_EECC", run_once, edges, m0)
+            net, cover = call("get_EECC", run_once, edges, m0, case.get("prelude") or ())
             holder["maxc"] = validate(edges, m0, net, cover)
             return tuple(sorted(tuple(sorted(c)) for c in cover))
         try:
@@ -144,7 +189,7 @@ def check(case):
             for s in range(20):
                 with rng.scripted(ints=[], tail_seed=r["seed"] * 100 + s, budget=budget):
                     try:
-                        net, cover = call("get_EECC", run_once, edges, m0)
+                        net, cover = call("get_EECC", run_once, edges, m0, case.get("prelude") or ())
                     except rng.Budget:
                         raise Violation("non-termination", f"more than {budget} tie-break draws for {nE} edges")
                 holder["maxc"] = validate(edges, m0, net, cover)
@@ -155,7 +200,7 @@ def check(case):
                else rng.scripted(ints=r["ints"], tail_seed=r.get("tail", 0), budget=budget))
         with ctx:
             try:
-                net, cover = call("get_EECC", run_once, edges, m0)
+                net, cover = call("get_EECC", run_once, edges, m0, case.get("prelude") or ())
             except rng.Budget:
                 raise Violation("non-termination", f"more than {budget} tie-break draws for {nE} edges")
         maxc = validate(edges, m0, net, cover)
@@ -165,4 +210,6 @@ def check(case):
     overlapping = sum(1 for K in maxc if len(K) >= 3 and any(len(K & L) >= 2 and len(L) >= 3 for L in maxc if L != K)) >= 2
     omega = max(len(K) for K in maxc)
     classes.add("m0_below_clique_number" if m0 < omega else ("m0_at_clique_number" if m0 == omega else "m0_above_clique_number"))
+    if case.get("prelude"):
+        classes.add("object_reused_under_other_bound")
     return {"nontrivial": big_shared or overlapping, "classes": sorted(classes), "notes": notes}
